@@ -224,7 +224,7 @@ type Config struct {
 	Cols     []ColDef
 	Key      string   // name of the key column ("" = none)
 	Indexes  []string // catalogue indexes created before any data
-	Logger   string   // "", "channel", "codec", "log"
+	Logger   string   // "", "channel", "codec", "log", "clone" (= channel, recorded synchronously)
 	Daemon   bool     // own the background cleanup goroutine (C17)
 	NoExpire bool
 	Clock    *time.Time  // share the virtual clock of another world
@@ -293,6 +293,11 @@ func (l recLogger) Append(c commit.Commit) error {
 		}
 		l.w.Commits = append(l.w.Commits, out)
 		l.w.Emitters = append(l.w.Emitters, vsched.Self())
+	case "clone":
+		// what commit.Channel does (Append sends commit.Clone()), recorded in place so
+		// that the emitting thread is known
+		l.w.Commits = append(l.w.Commits, c.Clone())
+		l.w.Emitters = append(l.w.Emitters, vsched.Self())
 	case "log":
 		var b bytes.Buffer
 		lg := commit.Open(&b)
@@ -346,7 +351,7 @@ func NewWorld(cfg Config) *World {
 	case "channel":
 		w.ch = make(commit.Channel, 4096)
 		opts.Writer = w.ch
-	case "codec", "log":
+	case "codec", "log", "clone":
 		opts.Writer = recLogger{w: w, mode: cfg.Logger}
 	}
 	if cfg.Daemon {
@@ -1032,7 +1037,15 @@ func (t *World) CreateModelIndexes() {
 // ReplayInto replays commits [from:] of this world, in emission order, into t.
 func (w *World) ReplayInto(t *World, from int) error {
 	for _, c := range w.Commits[from:] {
-		if err := t.C.Replay(CloneCommit(c)); err != nil {
+		// (Replay hands the buffers it is given to the transaction pool: always a copy.)
+		// A commit that came through the channel logger is replayed as the consumer got
+		// it - Commit.Clone keeps the buffers whole - and not through the codec, which
+		// would reduce it to its own block
+		cp := CloneCommit(c)
+		if w.Cfg.Logger == "channel" || w.Cfg.Logger == "clone" {
+			cp = c.Clone()
+		}
+		if err := t.C.Replay(cp); err != nil {
 			return err
 		}
 	}
